@@ -350,6 +350,9 @@ func auditSpecs(c *vlib.Ctx) []caseSpec {
 							continue
 						}
 						for _, op := range rs.ops {
+							if c.Quick() && strings.Contains(r, "/") && op != "Query" {
+								continue // quick: two segments only for Query, where the state decides the walk root
+							}
 							specs = append(specs, caseSpec{Comp: rs.comp, Op: op, Chain: chain, Prefix: pf, Rel: r, Cwd: "parent", State: state})
 						}
 					}
@@ -363,6 +366,9 @@ func auditSpecs(c *vlib.Ctx) []caseSpec {
 			continue
 		}
 		for _, sp := range spellings {
+			if c.Quick() && sp != "trailing-sep" && sp != "inner-dot" {
+				continue
+			}
 			for _, chain := range rs.chains {
 				k := 1
 				if rs.comp == "dirstruct" && !c.Quick() {
@@ -395,14 +401,14 @@ func auditSpecs(c *vlib.Ctx) []caseSpec {
 					for _, op := range rs.ops {
 						for _, kind := range caseVariants {
 							cs := caseSpec{Comp: rs.comp, Op: op, Chain: chain, Prefix: pf, Rel: r, Cwd: "parent", Case: kind}
-							if kind != "mixed" && changedByVariant(cs) {
+							if kind != "mixed" && (kind == "upper" || !c.Quick()) && changedByVariant(cs) {
 								specs = append(specs, cs)
 							}
 						}
 						if rs.comp == "unpack" && (pf == prefNone || pf == prefSlash) {
 							for _, sv := range sepVariants {
 								cs := caseSpec{Comp: rs.comp, Op: op, Chain: chain, Prefix: pf, Rel: r, Sep: sv}
-								if changedByVariant(cs) {
+								if (sv != "mixed-slash-first" || !c.Quick()) && changedByVariant(cs) {
 									specs = append(specs, cs)
 								}
 							}
